@@ -43,8 +43,80 @@ def gen_cases(tier, seed):
         cases.append({"kind": "flow", "cfg": {"flow": "image", "C": 1 + i % 2, "H": f * (1 + i % 2), "W": f * 2, "factor": f, "ctx": ctx,
                                               "actnorm": bool(i % 2), "conv": True},
                       "seed": env.subseed(seed, "c18img", i), "world": "f32" if i % 2 else "f64", "cost": 3})
+    # contexts whose items are scalars (class labels of shape [rows], no feature axis), fed to an nn.Embedding: still one context
+    # item per row
+    for i in range(6 if tier == "quick" else 120):
+        cases.append({"kind": "labels", "variant": i % 3, "D": 1 + i % 4, "K": 3 + i % 3, "cfg": {"labels": i % 3},
+                      "seed": env.subseed(seed, "c18lab", i), "world": "f32" if i % 2 else "f64", "cost": 2})
     cases.append({"kind": "suite", "seed": env.subseed(seed, "c18suite"), "world": "f32", "cost": 30})
     return cases
+
+
+def run_labels(case):
+    """Scalar context items: labels of shape [rows].  StandardNormal only reads the row count; a Flow embeds them with nn.Embedding
+    and conditions its base (variant 1) or its transform (variant 2) on the embedding."""
+    from nflows.distributions.normal import StandardNormal, ConditionalDiagonalNormal
+    from nflows.flows.base import Flow
+    from nflows import transforms as T
+    r = R(case)
+    seed, D, K, variant = case["seed"], case["D"], case["K"], case["variant"]
+    counter, expect = {"n": 0}, {}
+    orig = install(counter, expect)
+    try:
+        torch.manual_seed(seed)
+        if variant == 0:
+            obj, label = StandardNormal([D]), "dist_standard(label context)"
+        elif variant == 1:
+            obj = Flow(T.PointwiseAffineTransform(0.3, 1.7), ConditionalDiagonalNormal([D], context_encoder=torch.nn.Linear(4, 2 * D)),
+                       embedding_net=torch.nn.Embedding(K, 4))
+            label = "flow(label context -> embedding -> conditional base)"
+        else:
+            obj = Flow(T.MaskedAffineAutoregressiveTransform(features=D, hidden_features=8, context_features=4),
+                       StandardNormal([D]), embedding_net=torch.nn.Embedding(K, 4))
+            label = "flow(label context -> embedding -> conditional transform)"
+        obj.eval()
+        expect[id(obj)] = (D,)
+        for rows in (1, 2, 3, 5):
+            lab = torch.randint(K, (rows,), generator=torch.Generator().manual_seed(seed + rows))
+            x = torch.randn(rows, D)
+            det = dict(subject=label, rows=rows, context_shape=[rows])
+            calls_ = [("log_prob", lambda: obj.log_prob(x, lab), (rows,))]
+            for n in (1, 2, 4):
+                calls_.append(("sample", lambda n=n: obj.sample(n, lab), (rows, n, D)))
+                calls_.append(("sample(batch_size)", lambda n=n: obj.sample(n, lab, batch_size=3), (rows, n, D)))
+                calls_.append(("sample_and_log_prob", lambda n=n: obj.sample_and_log_prob(n, lab), (rows, n, D)))
+            for op, fn, want in calls_:
+                before = counter["n"]
+                r.ev()
+                try:
+                    with torch.no_grad():
+                        out = fn()
+                except ContractBroken as e:
+                    r.viol("shape_contract", "%s.%s returns a result that breaks the documented shape contract" % (label, op),
+                           contract=str(e)[:300], **det)
+                    continue
+                except Exception as e:
+                    r.viol("raises_on_valid_call", "%s.%s raises on a valid call" % (label, op), exc=repr(e)[:250],
+                           exc_type=type(e).__name__, **det)
+                    continue
+                r.count("contract_evaluations", counter["n"] - before)
+                first = out[0] if isinstance(out, tuple) else out
+                if tuple(first.shape) != tuple(want):
+                    r.viol("shape_contract", "%s.%s returns a result that breaks the documented shape contract" % (label, op),
+                           got=list(first.shape), want=list(want), **det)
+                elif isinstance(out, tuple) and tuple(out[1].shape) != tuple(want[:2]):
+                    r.viol("shape_contract", "%s.%s returns a result that breaks the documented shape contract" % (label, op),
+                           got=list(out[1].shape), want=list(want[:2]), **det)
+                else:
+                    r.cell(label, op, rows > 1)
+                r.count("batched_sampling_calls" if "batch" in op else "label_context_calls")
+        r.count("rejection_probes", 0)
+        r.sample({"subject": label, "contract_evaluations": counter["n"]})
+    except Exception as e:
+        r.inconc("harness failure: %r" % (e,))
+    finally:
+        uninstall(orig)
+    return r.done()
 
 
 def run_suite(case):
@@ -121,6 +193,8 @@ def uninstall(orig):
 def run_case(case):
     if case["kind"] == "suite":
         return run_suite(case)
+    if case["kind"] == "labels":
+        return run_labels(case)
     r = R(case)
     kind, cfg, seed = case["kind"], case["cfg"], case["seed"]
     counter, expect = {"n": 0}, {}
